@@ -4,7 +4,7 @@ from ..rules import drivers, observables, adapter, jump, noise, step, tdvp
 META = {
     "title": "emu-mps quantum-jump trajectories reproduce Lindblad dynamics on average",
     "technique": "static analysis: provenance of the noise term and jump operators through the noisy driver, "
-                 "loop-order vs. tensor-layout agreement of the jump candidates, event order after a jump",
+                 "loop-order vs. tensor-layout agreement of the jump candidates, event order after a jump; polynomial normal form of the jump gap and noise term; provenance of the noise model",
     "design_ref": "DESIGN.md §5 C17",
     "explanation": "ROLE-noise: lindblad_ops = SequenceData.lindblad_ops; lindblad_noise = "
                    "compute_noise_from_lindbladians(ops, dim) is computed before the Hamiltonian is filled and is "
